@@ -146,7 +146,7 @@ class StrToFloat(Harness):
     """which real number str_to_float computes (exact-real model): decimal and lower-case scientific text, mixed in one batch"""
     name = "str_to_float"
     functions = ("bionumpy.io.strops.str_to_float", "_decimal_str_to_float", "_scientific_str_to_float", "_build_power_array (dots)")
-    bounds = {"quick": "batches of 1-3 texts from the shapes d, dd.d, -d.dd, .d? (no), d.de+d, -dde-d, de+dd with symbolic digits and signs; "
+    bounds = {"quick": "batches of 1-3 texts from the shapes d, dd.d, -d.dd, .d / .dd / .ded (leading decimal point, in every row position), d.de+d, -dde-d, de+dd with symbolic digits and signs; "
                        "exponents |e| <= 19",
               "thorough": "more shapes per batch, 3-4 rows"}
     assumptions = ("exact-real model: the value is compared as a rational number, IEEE rounding (a few ulp) and range effects are outside the claim",)
@@ -159,6 +159,9 @@ class StrToFloat(Harness):
         out = [dict(shapes=[a]) for a in S]
         pairs = [("d.d", "dd"), ("sd.d", "d.ded"), ("dde-d", "d"), ("d.dd", "sd.de+d"), ("ded", "de+dd"), ("d", "d.de-d")]
         out += [dict(shapes=list(p)) for p in pairs] + [dict(shapes=["d.d", "dde-d", "sdd"])]
+        # texts that start with the decimal point ('.5'), alone and in every row position of a batch
+        out += [dict(shapes=[".d"]), dict(shapes=[".dd"]), dict(shapes=[".ded"]), dict(shapes=["d.d", ".d"]), dict(shapes=[".d", "d.d"]),
+                dict(shapes=["d", ".dd", "d.d"]), dict(shapes=[".d", ".d"]), dict(shapes=["sd.d", ".ded", "d.d"])]
         # the ends of the double range (literal exponents): the value must still be the text's value
         out += [dict(shapes=[a]) for a in ("d.ddem307", "d.ddddem305", "dep307", "d.dep300", "sd.ddddddddem300")] + [dict(shapes=["d.d", "d.ddem307"])]
         # many decimals (the scale 10^n passes 2^63 at n = 19) and many integer digits
